@@ -24,7 +24,11 @@ def fault_bases(ctx):
     ]
     # a read handle whose entry disappears (removed, renamed, parent removed) before its first read: the calls on the stale
     # handle and everything after them have to return
-    for gone in ([{"op": "remove", "name": "/h/f"}], [{"op": "rename", "name": "/h/f", "name2": "/h/g"}], [{"op": "removeall", "name": "/h"}], [{"op": "rename", "name": "/h", "name2": "/k"}]):
+    for gone in ([{"op": "remove", "name": "/h/f"}], [{"op": "rename", "name": "/h/f", "name2": "/h/g"}], [{"op": "removeall", "name": "/h"}], [{"op": "rename", "name": "/h", "name2": "/k"}],
+                 # ... or is replaced by a directory under the same name
+                 [{"op": "remove", "name": "/h/f"}, {"op": "mkdir", "name": "/h/f", "perm": 0o755}],
+                 [{"op": "remove", "name": "/h/f"}, {"op": "mkdir", "name": "/h/f", "perm": 0o755}, {"op": "mkdir", "name": "/h/f/sub", "perm": 0o755}]):
+        # (a file put back under the name would make the stale handle readable again and leave it mid-stream: the known finding C10-read-goroutine)
         fixed.append([{"op": "mkdir", "name": "/h", "perm": 0o755}, {"op": "createfile", "name": "/h/f", "blob": 0}, {"op": "open", "h": "s", "name": "/h/f", "flags": 0, "perm": 0}] + gone +
                      [{"op": "read", "h": "s", "n": 10, "tmo": 6000}, {"op": "seek", "h": "s", "whence": 0, "off": 3, "tmo": 6000}, {"op": "readat", "h": "s", "n": 4, "off": 1, "tmo": 6000},
                       {"op": "close", "h": "s", "tmo": 6000}, {"op": "mkdir", "name": "/after", "perm": 0o755, "tmo": 6000}])
